@@ -20,12 +20,12 @@ CHECKS = {
             T_TIE, "Coq proof (lia over Euclidean division) about a model regenerated from the Python source; differential run validates the translator",
             "DESIGN.md 3 C12"),
     "C03": (True,
-            "Theorems: the encoder's fragment split satisfies the validator's continuity rule for every slice grid and fragment size; lossless HQ length fields always fit 8 bits (arithmetic re-extracted from make_transform_data_hq_lossless each run); C03_structure_partial: a unit list of the shape the encoder produces (header, per picture a picture unit or [first fragment; split...], end of sequence; consecutive numbers mod 2^32, even first field; autofilled offsets) satisfies seven of the validator model's ten rules and is accepted (via C01_iff) given version_ok and the two ordering patterns as hypotheses. PARTIAL: end-to-end acceptance and the decoded parameters/numbers over the configuration space are decided by the differential run encoder -> serialiser -> validator.",
+            "Theorems: fragment split satisfies the validator's continuity rule for every slice grid/fragment size; lossless HQ length fields fit 8 bits (arithmetic re-extracted from the source each run); C03_structure: for the data-unit-level model of make_sequence + autofill (picture units / fragment split -> model of make_matching_sequence with the generic pattern, the level's pattern and any extra patterns -> data_unit_makers -> C07's autofilled major_version -> offsets) the validator model, with its ordering automata instantiated by the proved C18 Matcher, satisfies all ten structure rules and units_valid and ACCEPTS, for any level table, pictures and unit lengths (version rule via a proved equivalence of C01's and C07's formulations; ordering rules via C19_sound + C18). Remaining hypotheses: the search returned, the patterns' '$' discipline, and for level 0 only that no end_of_sequence precedes the last unit. PARTIAL: payload validity and the decoded parameters/numbers over the configuration space are decided by the differential run encoder -> serialiser -> validator (random configurations incl. random video metadata).",
             C_TIE + "Fragment-split model compared with make_picture_data_units on a grid; Gen/EncLossless is tie T (statement-level extraction); field validity inside data units is outside the model.",
             "Coq proof of the fragment-split/continuity refinement + differential encoder->validator run over a random configuration space",
             "DESIGN.md 3 C03"),
     "C05": (True,
-            "Theorems: picture-number literals of the picture_numbers generator (regenerated from source) and any legal consecutive numbering satisfy the validator's rule; metamorphic lemmas composed from the decoder models: slice padding bits irrelevant (all slices of a picture, LD and HQ; from C08), padding/auxiliary units and repeated identical headers keep verdict and observed picture numbers (partial: ordering patterns as hypothesis), absent next_parse_offset irrelevant, concatenation = concatenation (C10), alternative header encodings decode identically (C15). PARTIAL: prefix bytes, extended-transform flags, slice size scaler and picture CONTENT under stream edits, conformance and name uniqueness are decided by running every registered generator through the real serialiser and validator.",
+            "Theorems: picture-number literals of the generator (regenerated from source) and any legal consecutive numbering satisfy the validator's rule; metamorphic lemmas: slice padding bits irrelevant (all slices, LD and HQ; from C08); padding/auxiliary units and repeated identical headers keep verdict and observed picture numbers with the generic pattern concrete (only the level's pattern remains a hypothesis, none for level 0); absent next_parse_offset irrelevant; concatenation = concatenation (C10); alternative header encodings decode identically (C15). PARTIAL: prefix bytes, extended-transform flags, slice size scaler, picture CONTENT under stream edits, conformance and name uniqueness are decided by running every registered generator (plus a focused sweep with multi-row/column slice grids) through the real serialiser and validator.",
             T_TIE + "Metamorphic lemmas are over the hand models of C08/C10/C15 (tie C).",
             "Coq proof over source-extracted test-case constants + differential run of all decoder test case generators",
             "DESIGN.md 3 C05"),
@@ -104,10 +104,7 @@ CHECKS = {
             "Coq proofs over a control-flow model with text primitives as oracles + cell-by-cell mutation and random CSV differential run",
             "DESIGN.md 3 C28"),
     "C15": (True,
-            "Theorems for arbitrary data tables and level tables: every header the enumeration yields decodes to exactly the configured video parameters "
-            "and picture coding mode; all level-checked keys of a header are admitted by one table column; the default header is a member. PARTIAL: "
-            "validator acceptance beyond level keys (enum/zero/geometry/version checks) only by validating ~33k generated headers per run; one known "
-            "finding (levels 64/65 major_version).",
+            "Theorems for arbitrary data tables and level tables: every header the enumeration yields decodes to exactly the configured parameters/coding mode; all level-checked keys are admitted by one column; ACCEPTANCE: the validator's sequence-header function is modelled as its ordered list of checks and every enumerated header of a format_valid configuration passes all non-level checks given a major_version at least the header's version bound (the autofilled version suffices), and all incremental level checks when the admitting columns admit the written versions (known finding otherwise); format_valid is proved NECESSARY as well. PARTIAL: the tie between the level predicate and allowed_values_for is C17's theorem; stream-level checks are C01's; ~33k generated headers and ~300 deliberately invalid targets are validated per run (first error class compared).",
             C_TIE + "Candidate base-format list and allowed-value emptiness are model inputs dumped from the live functions.",
             "Coq proofs on a hand model of the header option enumeration and decoder + differential run through the real validator under real levels",
             "DESIGN.md 3 C15"),
@@ -199,11 +196,9 @@ CHECKS = {
             "Coq proofs on the stream model + regenerated state field lists + differential run on lists of up to 3-4 differing sequences with a non-conformant one at each position",
             "DESIGN.md 3 C10"),
     "C02": (True,
-            "Theorem (stage 1): for arbitrary unit lists (no validity hypothesis beyond positive slice counts) the stream-level state machine never ends in a "
-            "non-conformance exception. PARTIAL: header- and slice-level totality and the 64 exception classes' explain/offending_offset/bitstream_viewer_hint are "
-            "decided by byte-level mutation fuzzing of valid streams on the implementation (10 000 mutants per quick run, every error explained and located).",
-            C_TIE + "Declared sizes are capped in-process as the property allows.",
-            "Coq no-crash proof on the stream model + byte-level mutation run on the real validator with all reporting methods exercised",
+            "Stage 1: the stream-level state machine over abstract data units never ends in a non-conformance exception. Stage 2 (over actual bits): for all bit strings, all tables satisfying the decidable consistency predicate tables_ok (evaluated on the live vc2_data_tables each run), all level predicates and all matcher answers, parse_info, sequence_header, picture_header + transform_parameters, fragment_header and a whole picture data unit including every slice (composed with C08's readers) end in Ok / a ConformanceError class / UnexpectedEndOfStream -- never a Python exception, never out of fuel; every state[...] of an absent key is an explicit crash in the model and a witness shows crashes are reachable when tables_ok fails. PARTIAL: slice-reader KeyError/IndexError rest on C13 and the matrix shape, level assertions inside slices, wavelet/picture_decode, the bit-level refinement of the stream model, and the exception classes' explain/offending_offset/bitstream_viewer_hint are covered by the byte-mutation run (10 000 mutants per quick run) only.",
+            C_TIE + "Headers.v is compared field-by-field and error-class-by-error-class with the real decoder functions (~1300 cases per run, real and permissive level tables); declared sizes are capped as the property allows.",
+            'Coq no-crash proofs (stream level; bit-level weakest-precondition calculus over a state/error monad) + differential header parsing + byte-level mutation run with all reporting methods exercised',
             "DESIGN.md 3 C02"),
     "C21": (True,
             "All five statements proved for ALL programs (dependent free monad: arbitrary data-dependent control flow), descriptions and default tables over a model "
